@@ -155,7 +155,20 @@ def semantic_summary(facts, b):
             scan(t)
     out.append(('arrays', arrays))
     out.append(('consts', sorted(consts, key=str)))
-    return hashlib.sha256(_spell(repr(out)).encode()).hexdigest()
+    return hashlib.sha256(_renumber_locals(_spell(repr(out))).encode()).hexdigest()
+
+
+def _renumber_locals(text):
+    """locals named by order of first appearance: an extra auto-deref temporary in one feature subset shifts the numbering
+    of everything after it without changing anything else"""
+    m = {}
+
+    def sub(mo):
+        n = mo.group(2)
+        if n not in m:
+            m[n] = str(len(m))
+        return mo.group(1) + 'L' + m[n] + mo.group(3)
+    return re.sub(r"(\('(?:local|mem|uninit|rec)', )(\d+)([,)])", sub, text)
 
 
 def canon_body(b):
